@@ -3,6 +3,7 @@
  */
 #define VF_PROP "C06"
 #include "vf_common.h"
+#include <wchar.h>
 #include "a/str.h"
 #include "a/utf.h"
 #include <ctype.h>
@@ -196,12 +197,39 @@ static size_t gen_conv(vf_rng *r, char t, char *out, farg *a)
     return n;
 }
 
+/* a conversion that FAILS: in the C locale (the harness never calls setlocale) a wide character above 0x7F cannot be converted, the C formatter
+   returns a negative value after it has already produced the text in front of the conversion.  The formatted append then appends nothing: content and
+   length unchanged, a negative return, and - if the string was terminated before - still a NUL right behind the content (the first pass writes into the
+   spare room, i.e. over the terminator).  Found missing on the pinned tree (DESIGN 5); seeded change C06-M lives on the same path. */
+static int do_format_fail(smodel *x, vf_rng *r)
+{
+    char fmt[64], probe[64];
+    static char const lit[] = "abcXYZ,.-_";
+    int const nl = (int)vf_below(r, 12), tb = is_term(x), use_v = vf_chance(r, 1, 3);
+    wint_t const wc = (wint_t)(0x80 + vf_below(r, 0x2000));
+    int res, lib, ok = 1;
+    size_t fl = 0;
+    for (int j = 0; j < nl; ++j) { fmt[fl++] = lit[vf_below(r, sizeof(lit) - 1)]; }
+    strcpy(fmt + fl, vf_chance(r, 1, 2) ? "%lc" : "%lc.");
+    lib = snprintf(probe, sizeof(probe), fmt, wc);
+    if (lib >= 0) { VF_COUNT("formatter-failure-not-reproducible-in-this-locale"); return 1; }
+    opname = use_v ? "catv" : "catf";
+    vf_log("str %s fmt=\"%s\" with a wide character U+%04X that the C locale cannot convert (len %zu mem %zu, terminated before: %d)", opname, fmt, (unsigned)wc, x->n, a_str_mem(x->s), tb);
+    res = use_v ? catv_wrap(x->s, fmt, wc) : a_str_catf(x->s, fmt, wc);
+    ++vf.evals;
+    VF_COUNT("formatted-append-with-a-failing-conversion");
+    if (res >= 0) { FAIL("failing-conversion/return-value", "returned %d although the C formatter fails (%d) for \"%s\"", res, lib, fmt); return 0; }
+    (void)ok;
+    return check_state(x, tb);
+}
+
 static int do_format(smodel *x, vf_rng *r)
 {
     int ok = 1, pat = (int)vf_below(r, 8), use_v = vf_chance(r, 1, 3);
     farg a[3];
     char fmt[700], expect[4096];
     size_t fl = 0, spare = a_str_mem(x->s) - a_str_len(x->s);
+    if (vf_chance(r, 1, 12)) { return do_format_fail(x, r); }
     int elen, res, tb = is_term(x);
     static char const lit[] = "abc XYZ,.-_:;/%";
     for (int k = 0; k < 3; ++k)
